@@ -42,5 +42,11 @@ func PowerSetSize(elements int) int {
 	if elements <= 0 {
 		return 0
 	}
+	if elements >= maxPowerSetElements {
+		// 2^elements does not fit: saturate instead of overflowing (no request can carry that many weights)
+		return int(^uint(0) >> 1)
+	}
 	return int(math.Pow(2, float64(elements)))
 }
+
+const maxPowerSetElements = 62
